@@ -6,7 +6,9 @@ MC      spec/MC_Serialise: all insertion histories (add / add_component) up to a
 REPLAY  every history through the real API: line sequence of to_ical(sorted=True/False) equals
         Emit; two calls give identical bytes; the tree snapshot (incl. every value.params) is
         unchanged; parameter insertion order does not matter.
-CONFIG  the same programs in fresh interpreters with PYTHONHASHSEED 0, 1, 2, 4242: equal digests.
+CONFIG  the same programs in fresh interpreters with PYTHONHASHSEED 0, 1, 2, 4242 and with different
+        process histories before them (a generic component / a parsed calendar / other component
+        classes serialised first): equal digests -- the bytes are a function of the tree.
 RECORD  random deep trees (typed values) -> token sequences.
 VALIDATE spec/Trace_Serialise: Emit(tree) = observed tokens, balanced, twice-identical, pure.
 """
@@ -98,8 +100,35 @@ def build_history(hist, rnd):
     return e
 
 
+def prelude(kind):
+    """Process history before the programs run: Emit is a function of the tree, so none of this may matter."""
+    if kind == "generic-first":
+        c = Component()
+        c.name = "X-FIRST"
+        c.add("zzz", "1")
+        c.add("summary", "2")
+        c.add("dtstart", date(2024, 1, 1))
+        c.to_ical()
+        c.to_ical(sorted=False)
+    elif kind == "parse-first":
+        Calendar.from_ical(b"BEGIN:VCALENDAR\r\nX-Z:1\r\nBEGIN:X-UNKNOWN\r\nB:2\r\nA:1\r\nEND:X-UNKNOWN\r\nBEGIN:VEVENT\r\n"
+                           b"UID:1\r\nSUMMARY:s\r\nEND:VEVENT\r\nEND:VCALENDAR\r\n").to_ical()
+    elif kind == "subclass-first":
+        from icalendar import Todo, Journal, FreeBusy, Timezone
+        from icalendar.prop import vRecur
+        for cls in (Todo, Journal, FreeBusy, Alarm):
+            x = cls()
+            x.add("summary", "s")
+            x.add("uid", "u")
+            x.add("attendee", "mailto:a@example.com")
+            x.to_ical()
+        vRecur(count=1, freq="daily", byday=["MO"]).to_ical()
+        Parameters({"z": "1", "a": "2"}).to_ical()
+
+
 def digest_program():
-    """Runs in a fresh interpreter (hash seed set by the parent): a fixed list of API programs."""
+    """Runs in a fresh interpreter (hash seed and process history set by the parent): a fixed list of API programs."""
+    prelude(os.environ.get("VERIF_PRELUDE", "none"))
     rnd = random.Random(7)
     out = []
     ops = [("add", L("SUMMARY"), "s1"), ("add", L("ATTENDEE"), "a1"), ("add", L("ATTENDEE"), "a2"),
@@ -162,19 +191,21 @@ def run(ctx: Ctx):
 
     # ------------------------------------------------------------- configurations: hash seeds
     digests = {}
-    for seed in ("0", "1", "2", "4242"):
-        env = dict(os.environ, PYTHONHASHSEED=seed)
+    for seed, pre in (("0", "none"), ("1", "none"), ("2", "none"), ("4242", "none"),
+                      ("0", "generic-first"), ("0", "parse-first"), ("0", "subclass-first"), ("1", "generic-first")):
+        env = dict(os.environ, PYTHONHASHSEED=seed, VERIF_PRELUDE=pre)
+        seed = f"{seed}/{pre}"
         p = subprocess.run([sys.executable, "-c", "from vf.props.c10 import digest_program; digest_program()"],
                            capture_output=True, text=True, env=env, cwd=str(VERIF), timeout=600)
         if p.returncode != 0:
             raise Machinery(f"digest subprocess failed: {p.stderr[-500:]}")
         digests[seed] = json.loads(p.stdout.strip().splitlines()[-1])
-    ref = digests["0"]
+    ref = digests["0/none"]
     for seed, d in digests.items():
         ctx.evaluations += len(d)
         bad = [i for i, (a, b) in enumerate(zip(ref, d)) if a != b]
         if bad or len(d) != len(ref):
-            ctx.fail("P:C10:hash-seed-independent", {"seed": seed, "programs": bad[:5]}, [d[i] for i in bad[:3]], [ref[i] for i in bad[:3]])
+            ctx.fail("P:C10:hash-seed-independent" if seed.endswith("/none") else "P:C10:function-of-the-tree", {"configuration": seed, "programs": bad[:5]}, [d[i] for i in bad[:3]], [ref[i] for i in bad[:3]])
     ctx.notes.append(f"hash-seed configurations compared: {sorted(digests)} x {len(ref)} programs")
 
     # ------------------------------------------------------------- RECORD: random trees
